@@ -235,6 +235,7 @@ structure St where
   wraps : List Bool := []        -- per callback run: reached through the debug wrapper?
   log : List String := []        -- console lines "mocker [..] called, args [..], results [..]"
   dead : Bool := false           -- the process died (fmt never returned)
+  traceLines : Nat := 0          -- LogLevel-gated diagnostics written while patching (logger.Trace/Debug; bytecode.PrintInst)
 deriving Repr
 
 def traceLevel := 6
@@ -263,9 +264,19 @@ structure Env where
   name : String                      -- mocker.String()
   render : Val → Option String       -- fmt.Sprintf("%v", ·)
   orig : List Val → List Val         -- the original function (argument list without receiver)
-  /-- the mocked function is one the console logger itself calls while formatting a line
-      (logger.go:293 layoutf → callerFn → logger.go:358 caller → strconv.Itoa, …): finding F14 -/
-  loggerCalls : Bool := false
+  /-- what the USER's String()/Error()/Format methods of a value record when fmt renders it (fmt runs user code): finding F27.
+      A method that calls the mocked function again never returns: that is `render v = none`. -/
+  renderEvents : Val → List String := fun _ => []
+
+/-- functions goom's console logger calls while it formats and writes one line (logger.go:263 Consolefc → :293 layoutf:
+    time.Now().Format, fmt.Sprintf, callerFn → :358 caller: runtime.Callers, CallersFrames, path.Base, strconv.Itoa (→ FormatInt);
+    os.Stdout.Write).  Hand-collected from the source, direct callees only — `time.Now` is missing on purpose: debug.go:14 exempts it. -/
+def loggerCallees : List String :=
+  ["strconv.Itoa", "strconv.FormatInt", "fmt.Sprintf", "path.Base", "strings.Join", "runtime.Callers", "runtime.CallersFrames",
+   "time.Time.Format", "os.(*File).Write", "strings.LastIndex"]
+
+/-- the mocked function (by `mocker.String()`) is one the console logger itself calls: finding F14/F15 -/
+def Env.loggerCalls (env : Env) : Bool := loggerCallees.contains env.name
 
 inductive Out
 | ret (vs : List Val)
@@ -295,7 +306,7 @@ def runCb (env : Env) (cb : Cb) (args : List Val) (wrapped : Bool) (s : St) : Ou
                                       wrote := s.ws.wrote || (cb.kind == .sum && lastNonemptyPack a) },
                     wraps := s.wraps ++ [wrapped] }
   match cb.kind with
-  | .sum => (.ret [intVal (cb.k + sumV a)], s)
+  | .sum => (.ret (if env.sig.nOut = 0 then [] else [intVal (cb.k + sumV a)]), s)
   | .pan => (.pan ("boom" ++ toString cb.k), s)
   | .nilp => (.pan "nilderef", s)
   | .echo => (.ret a, s)
@@ -377,6 +388,11 @@ def mockerCallback (env : Env) (args : List Val) (ws : WS) : Out × WS :=
 def consolefc (s : St) (level : Nat) (line : String) : St :=
   if level ≤ s.console then { s with log := s.log ++ [line] } else s
 
+/-- events recorded by user String()/Error() methods while SprintV renders a vector -/
+def userEvents (env : Env) : List Val → List String
+| [] => []
+| v :: r => (if guardedNil v then [] else env.renderEvents v) ++ userEvents env r
+
 /-- the tail of both wrappers (debug.go:28-34 and :49-55): the `excludeFunc` test, then the log call whose
     arguments `arg.SprintV(params)`, `arg.SprintV(results)` are evaluated before the level is looked at. -/
 def afterCall (env : Env) (args results : List Val) (s : St) : Out × St :=
@@ -387,7 +403,10 @@ def afterCall (env : Env) (args results : List Val) (s : St) : Out × St :=
       -- Consolefc formats the line only if the level is on (logger.go:264); formatting calls the patched function,
       -- i.e. this wrapper again, without bound: the process dies of stack overflow
       if env.loggerCalls && decide (debugLevel ≤ s.console) then (.crash, { s with dead := true })
-      else (.ret results, consolefc s debugLevel ("mocker [" ++ env.name ++ "] called, args [" ++ a ++ "], results [" ++ r ++ "]"))
+      else
+        -- fmt has run the user methods of every value it was handed (not of guarded nils), arguments first
+        let s1 := { s with ws := { s.ws with events := s.ws.events ++ userEvents env args ++ userEvents env results } }
+        (.ret results, consolefc s1 debugLevel ("mocker [" ++ env.name ++ "] called, args [" ++ a ++ "], results [" ++ r ++ "]"))
     | _, _ => (.crash, { s with dead := true })
 
 def failOut (s : St) (cls : String) : Out × St := (.pan cls, s)
@@ -538,6 +557,7 @@ deriving DecidableEq, Repr
 
 inductive Op
 | apply (cb : Cb)
+| applyBad                        -- Apply(42): a callback that is not a function
 | ret (vals : List Val)
 | when (pats : List String) (vals : List Val)
 | rets (seq : List (List Val))
@@ -563,7 +583,12 @@ def exTok (r : Except String WS) : String := match r with | .ok _ => "ok" | .err
 def cfgStep (env : Env) (ws : WS) : Op → WS × Option (Fn × Option PF) × String
   | .apply cb =>
     -- mocker.go:441 Apply → doApply; iface.go:87 Apply → applyByIFaceMethod(.., callback, nil)
-    (ws, some (.user cb, none), "ok")
+    -- … then `m.when = nil` (mocker.go:246/:511, iface.go:94): Apply overrides earlier When/Return
+    ({ ws with when := none }, some (.user cb, none), "ok")
+  | .applyBad =>
+    -- not wrapped (debug.go: only non-nil funcs are, fix F28); proxy.Func / proxy.Interface then reject it by reflect panic.
+    -- Apply discards the When first only for functions/methods (mocker.go doApply after fix F7 clears m.when in Apply)
+    (ws, none, "panic:reflect-nonfunc")
   | .ret vals =>
     match ws.when with
     | some w => let r := whenReturn env.sig ws w vals; (r.2, none, exTok r.1)
@@ -614,6 +639,9 @@ def outTok (s : St) (o : Out) (args : List Val) : String :=
   | .pan c => ev ++ "->p:" ++ c
   | .crash => ev ++ "->CRASH"
 
+/-- patching writes LogLevel-gated diagnostics (logger.Trace/Debug in internal/patch, bytecode.PrintInst) — only a count here -/
+def bumpTrace (s : St) : St := if s.loglevel ≥ traceLevel then { s with traceLines := s.traceLines + 1 } else s
+
 /-- perform the requested (re-)installation.  Every doApply / applyByIFaceMethod ends with
     `logger.Consolefc(DebugLevel, "mocker [%s] apply.", logger.Caller(..), ..)` (mocker.go:248, :467, iface.go:190), executed
     with the patch already in place: if the console level is on (then the installed function is wrapped) and the
@@ -621,6 +649,7 @@ def outTok (s : St) (o : Out) (args : List Val) : String :=
 def applyReq (env : Env) (s : St) : Option (Fn × Option PF) → St
   | none => s
   | some (imp, pf) =>
+    let s := bumpTrace s
     if env.loggerCalls && s.isDebugOpen then { install env s imp pf with dead := true } else install env s imp pf
 
 /-- one operation of a scenario; returns the new state and the transcript token of the operation -/
